@@ -54,3 +54,14 @@ CHECKS["C13"] = dict(
         "struct bodies are not parsed by ParseValue, so nothing is asserted about struct members",
     ],
 )
+
+CHECKS["C12"] = dict(
+    pkg="codec", run="^TestC12_", level="exploration",
+    quick=dict(shards=8, checks=4000, timeout=900),
+    thorough=dict(shards=16, checks=60000, timeout=3000),
+    assumptions=[
+        "only explicitly owned writers (NewWriter/NewWriterBuffer); auto-released writers are C18's subject",
+        "a handle variable detached by End/Build (and handles derived from it afterwards) may report its own 'closed' error instead of the sticky error E; value copies taken before the detach must report E",
+        "Any/Copy/Merge receive valid encodings only (Any copies raw bytes without validation by design)",
+    ],
+)
